@@ -307,7 +307,7 @@ func GenIntentOp(t *rapid.T, o HistGenOpts, owner int) IntentOp {
 		op.Leaves = GenLeafSels(t, o.Universe, 1, 6, "leaf")
 		forms := o.Forms
 		if len(forms) == 0 {
-			forms = []string{"typed", "string", "json", "json_ietf"}
+			forms = []string{"typed", "string", "json", "json_ietf", "mixed", "mixed_ietf"}
 		}
 		op.Form = rapid.SampledFrom(forms).Draw(t, "form")
 	}
@@ -832,6 +832,37 @@ func BuildIntentRequest(ri ResolvedIntent) (*sdcpb.TransactionIntent, error) {
 		req.Delete = true
 		req.Orphan = true
 		return req, nil
+	}
+	if ri.Form == "mixed" || ri.Form == "mixed_ietf" {
+		// several updates in one intent: every other leaf as a typed update addressed by its path, the rest in one
+		// JSON document at the root (both can reach the same list entry)
+		typed, doc := Conf{}, Conf{}
+		for i, k := range ri.Explicit.SortedKeys() {
+			if MustCanon(k).IsKeyLeaf() {
+				continue
+			}
+			if i%2 == 0 {
+				typed[k] = ri.Explicit[k]
+			} else {
+				doc[k] = ri.Explicit[k]
+			}
+		}
+		a, err := BuildIntentRequest(ResolvedIntent{Name: ri.Name, Kind: ri.Kind, Prio: ri.Prio, Explicit: typed, Form: "typed"})
+		if err != nil {
+			return nil, err
+		}
+		if len(doc) > 0 {
+			form := "json"
+			if ri.Form == "mixed_ietf" {
+				form = "json_ietf"
+			}
+			b, err := BuildIntentRequest(ResolvedIntent{Name: ri.Name, Kind: ri.Kind, Prio: ri.Prio, Explicit: doc, Form: form})
+			if err != nil {
+				return nil, err
+			}
+			a.Update = append(a.Update, b.Update...)
+		}
+		return a, nil
 	}
 	switch ri.Form {
 	case "json", "json_ietf":
